@@ -122,6 +122,8 @@ def oracle(gene, doc, entries):
             got = apply_py(L, lo, g, gop)
             got = rc(got) if gene.strand < 0 else got
             g0 = gene.ref_to_chr.get(pos - 1)
+            if insertion_at_gap(gene, pos, op):
+                continue
             if g0 is None:
                 why.append(f"{pos}{op} loaded as {g}:{gop} although its RefSeq position is not mapped in this build")
                 continue
@@ -133,6 +135,19 @@ def oracle(gene, doc, entries):
             if gene.get_refseq(g, gop) != f"{pos}{op}":
                 why.append(f"{pos}{op}: reported RefSeq notation is {gene.get_refseq(g, gop)}")
     return why
+
+
+def insertion_at_gap(gene, pos, op):
+    """an insertion written next to an alignment gap of this build (one of the RefSeq bases around its anchor is missing
+    from the genome, or the genome has bases between them): where the inserted bases sit relative to the gap is a matter
+    of convention, the haplotype clauses are not decided for it"""
+    if not op.startswith("ins"):
+        return False
+    idx = [pos - 2, pos - 1, pos]
+    gs = [gene.ref_to_chr.get(i) for i in idx]
+    if any(g is None for g in gs):
+        return True
+    return any(abs(gs[i + 1] - gs[i]) != 1 for i in range(len(gs) - 1))
 
 
 CIG = re.compile(r"([MID])(\d+)")
@@ -179,7 +194,10 @@ def pool(r, quick):
         for genome in ("hg19", "hg38"):
             out.append({"kind": "shipped", "name": n, "genome": genome})
     for _ in range(50 if quick else 600):
-        y = gen_gene.gen_gene(r, cigar_indels=r.random() < 0.5, offsets=(10000, 20000))
+        ci_ = r.random() < 0.5
+        y = gen_gene.gen_gene(r, cigar_indels=ci_, offsets=(10000, 20000))
+        if not ci_ and r.random() < 0.5:
+            y = gen_gene.with_balanced_gaps(r, y)
         # add a deletion-insertion variant (the generator's pool has none)
         doc = yaml.safe_load(y)
         seq = doc["reference"]["seq"]
@@ -352,7 +370,9 @@ def tie(ctx):
             stats["same_haplotype"] += e["same_haplotype"]
             if e["back"] != op and not op.startswith("del") or (op.startswith("del") and "ins" not in op[3:] and e["back"] != op):
                 fam["coords"]["disagreements"].append({"why": f"{pos}{op}: reverse conversion gives {e['back']}", "input": inp})
-            if not e["same_haplotype"]:
+            if not e["same_haplotype"] and insertion_at_gap(gene, pos, op):
+                stats["insertion_at_alignment_gap_not_decided"] += 1
+            elif not e["same_haplotype"]:
                 violations.append({"why": f"{gene.name} {gene.genome}: {pos}{op} loaded as {e['g']}:{e['op']} denotes a different haplotype (model evaluation of the haplotype equation)", "input": inp,
                                    "signature": "c08:model_equation"})
             distinct.add(lib.canon_hash([gene.name, gene.genome, pos, op]))
